@@ -6,7 +6,7 @@
 set -u
 D=$(realpath "$1"); shift
 ID=$(basename "$D"); L=/tmp/seedtest_$ID; mkdir -p $L
-R=/tmp/seedrepo
+R=${SEEDREPO:-/tmp/seedrepo}
 if [ ! -d $R ]; then
   git -C /repo worktree add -q --detach $R HEAD || exit 2
   cmake -S $R -B $R/_build -G Ninja -DBUILD_TESTS=ON -DCMAKE_BUILD_TYPE=RelWithDebInfo -DCMAKE_CXX_FLAGS=-Wno-error > $L/configure.log 2>&1 || { echo "configure failed"; exit 2; }
